@@ -1240,8 +1240,9 @@ class SCFGIO:
             elif isinstance(value, PythonBytecodeBlock):
                 blocks[key]["begin"] = value.begin
                 blocks[key]["end"] = value.end
-            edges[key] = sorted([i for i in value._jump_targets])
-            backedges[key] = sorted([i for i in value.backedges])
+            # The order of the jump targets is significant, keep it.
+            edges[key] = [i for i in value._jump_targets]
+            backedges[key] = [i for i in value.backedges]
 
         graph_dict = {"blocks": blocks, "edges": edges, "backedges": backedges}
 
